@@ -174,6 +174,29 @@ func init() {
 			}
 			return concStr(in.tf, strings.Repeat(s, n)), true
 		},
+		"(*sync.Map).Load": func(in *Interp, fr *frame, a []Value) (Value, bool) {
+			m := in.syncMap(a[0])
+			if e := in.findEntry(m, a[1]); e != nil {
+				return Tuple{e.V, in.tf.T}, true
+			}
+			return Tuple{Iface{}, in.tf.F}, true
+		},
+		"(*sync.Map).Store": func(in *Interp, fr *frame, a []Value) (Value, bool) {
+			in.mapUpdate(in.syncMap(a[0]), a[1], a[2], fr)
+			return nil, true
+		},
+		"(*sync.Map).LoadOrStore": func(in *Interp, fr *frame, a []Value) (Value, bool) {
+			m := in.syncMap(a[0])
+			if e := in.findEntry(m, a[1]); e != nil {
+				return Tuple{e.V, in.tf.T}, true
+			}
+			in.mapUpdate(m, a[1], a[2], fr)
+			return Tuple{a[2], in.tf.F}, true
+		},
+		"(*sync.Map).Delete": func(in *Interp, fr *frame, a []Value) (Value, bool) {
+			in.mapDelete(in.syncMap(a[0]), a[1], fr)
+			return nil, true
+		},
 		"strconv.FormatBool": func(in *Interp, _ *frame, a []Value) (Value, bool) {
 			return in.iteStr(a[0].(*Term), concStr(in.tf, "true"), concStr(in.tf, "false")), true
 		},
@@ -508,6 +531,27 @@ func (in *Interp) hashToken(alg string, data SliceV, size int) []Value {
 		out = append(out, IntV{tf.BV(8, 0)})
 	}
 	return out
+}
+
+// syncMap: the contents of a sync.Map live in a side table keyed by the
+// identity of the Map object.
+func (in *Interp) syncMap(recv Value) *MapV {
+	p, ok := recv.(PtrV)
+	if !ok || p.R == nil {
+		in.goPanic("nil *sync.Map")
+	}
+	k := p.R.Key()
+	if in.syncMaps == nil {
+		in.syncMaps = map[string]*MapV{}
+	}
+	m := in.syncMaps[k]
+	if m == nil {
+		ei := types.NewInterfaceType(nil, nil)
+		in.nextMap++
+		m = &MapV{KT: ei, VT: ei, ID: in.nextMap}
+		in.syncMaps[k] = m
+	}
+	return m
 }
 
 func (in *Interp) curveModel(bits int) Value {
